@@ -99,7 +99,8 @@ def xarraylike_params(fn):
     except (TypeError, ValueError):
         return False
     names = list(sig.parameters)[:2]
-    return all("XarrayLike" in str(sig.parameters[n].annotation) or "FlexibleArrayType" in str(sig.parameters[n].annotation) for n in names)
+    # XarrayLike / FlexibleArrayType are aliases: the signature shows the Union they expand to
+    return all(any(t in str(sig.parameters[n].annotation) for t in ("XarrayLike", "FlexibleArrayType", "Dataset")) for n in names)
 
 
 def run(ctx):
@@ -176,7 +177,11 @@ def run(ctx):
                         check(f"dask:{mode}:{sched}", ys, post=lambda r, s=sched: compute(r, s), lazy_expected=rc.lazy)
             # Dataset variables
             if rc.dataset is not None and xarraylike_params(rc.dataset):
-                ds = [xr.Dataset({"v1": x, "v2": x * 2}) for x in xs]
+                # second variable: the same fields read backwards (other values, other NaN slots, same domain and labels),
+                # so that a mask or statistic shared between the variables of a Dataset shows
+                xs2 = [x.copy(data=np.array(x.values.ravel()[::-1].reshape(x.shape), order="C", copy=True)) if x.dims != () else x for x in xs]
+                base2 = core.call_impl(rc.call, xs2, **kw)
+                ds = [xr.Dataset({"v1": x, "v2": x2}) for x, x2 in zip(xs, xs2)]
                 r = core.call_impl(rc.call, ds, **kw)
                 programs += 1
                 ctx.case((rc.name, "dataset", desc))
@@ -187,6 +192,11 @@ def run(ctx):
                     ok, why = scorelib.same_value(base[1], r[1]["v1"])
                     if not ok:
                         ctx.violation(f"{rc.name}: Dataset variable differs from the DataArray result: {why}", desc, "same", why)
+                    elif base2[0] == "ok":
+                        ok, why = scorelib.same_value(base2[1], r[1]["v2"])
+                        if not ok:
+                            ctx.violation(f"{rc.name}: second Dataset variable (the fields reversed) differs from the DataArray result: {why}",
+                                          dict(desc, second_variable="each input's values in reverse flat order"), "same", why)
             if it == 0 and len(ctx.samples) < 4:
                 ctx.sample(desc)
     pandas_api(ctx)
@@ -211,12 +221,15 @@ def pandas_api(ctx):
         f = [float(gens.grid_value(rng)) for _ in range(n)]
         o = [float(gens.grid_value(rng)) if rng.random() > 0.15 else float("nan") for _ in range(n)]
         for nm in ("mse", "rmse", "mae"):
-            a = core.call_impl(getattr(PC, nm), pd.Series(f), pd.Series(o))
-            b = core.call_impl(getattr(Sc.continuous, nm), xr.DataArray(f, dims="x"), xr.DataArray(o, dims="x"))
-            ctx.case(("pandas", nm, tuple(f), tuple(map(str, o))))
-            ctx.count("rep:pandas")
-            if a[0] != b[0] or (a[0] == "ok" and not np.allclose(float(a[1]), float(b[1]), rtol=1e-9, atol=1e-12, equal_nan=True)):
-                ctx.violation(f"scores.pandas.continuous.{nm} differs from the xarray function on the same values", {"fcst": f, "obs": o}, str(b[1]), str(a[1]))
+            for ang in (None, False, True):
+                kwa = {} if ang is None else {"is_angular": ang}
+                ff, oo = ([v * 45.0 for v in f], [v * 45.0 for v in o]) if ang else (f, o)      # degrees, several wraps
+                a = core.call_impl(getattr(PC, nm), pd.Series(ff), pd.Series(oo), **kwa)
+                b = core.call_impl(getattr(Sc.continuous, nm), xr.DataArray(ff, dims="x"), xr.DataArray(oo, dims="x"), **kwa)
+                ctx.case(("pandas", nm, ang, tuple(ff), tuple(map(str, oo))))
+                ctx.count("rep:pandas")
+                if a[0] != b[0] or (a[0] == "ok" and not np.allclose(float(a[1]), float(b[1]), rtol=1e-9, atol=1e-12, equal_nan=True)):
+                    ctx.violation(f"scores.pandas.continuous.{nm}({kwa}) differs from the xarray function on the same values", {"fcst": ff, "obs": oo, "kwargs": kwa}, str(b[1]), str(a[1]))
 
 
 def manager_state(ctx):
